@@ -168,7 +168,7 @@ theorem Op.matvec2d_eqv {o : Op} (hw : o.WF) {x y : Mat} (hx : x.nRow = o.nCol) 
   | con c => simp only [Op.matvec2d] at hy; cases hy; exact CoNeighbor.matmat_eqv_dense c x
   | pol p =>
     simp only [Op.matvec2d] at hy; cases hy
-    exact Polynome.matmat_eqv_dense p.matrix hw.2 p.coeffs hw.1 x hx
+    exact Polynome.matmat_eqv_dense p.matrix hw.2.1 p.coeffs hw.1 x hx
   | gsum a b => simp only [Op.matvec2d] at hy; cases hy
   | gscaled a c => simp only [Op.matvec2d] at hy; cases hy
 
